@@ -38,6 +38,11 @@ def to_lines(h):
     return out
 
 
+# findings still recorded as "known" (a "fixed" line in known_findings.jsonl makes its trigger family judged again)
+ACTIVE = {kid for kid in ("KF-C05-1", "KF-C05-2", "KF-C05-3")
+          if {k["id"]: k.get("status") for k in core.load_known() if k.get("property") == "C05"}.get(kid, "known") == "known"}
+
+
 def gen(ctx, depth, sim, full, kfskip, num=0, tag="", seed=None):
     """scenarios from IpcAdmitGen.tla (it prints one plain line per scenario; parsed here because TLC wraps long tuples)"""
     extra = []
@@ -47,7 +52,8 @@ def gen(ctx, depth, sim, full, kfskip, num=0, tag="", seed=None):
         extra = ["-simulate", "num=%d" % num, "-depth", str(depth + 3), "-seed", str(seed if seed is not None else ctx.seed)]
     r = ctx._tlc("IpcAdmitGen.tla", os.path.join(core.SPEC, "IpcAdmitGen.cfg"), workers, extra=extra,
                  env={"DEPTH": str(depth), "SIM": "1" if sim else "0", "FULL": "1" if full else "0",
-                      "KFSKIP": "1" if kfskip else "0"}, timeout=1200, jvm=("-Xmx6g",), tag="gen" + tag)
+                      "KFSKIP": "1" if kfskip else "0", "KF1": "1" if "KF-C05-1" in ACTIVE else "0",
+                      "KF2": "1" if "KF-C05-2" in ACTIVE else "0", "KF3": "1" if "KF-C05-3" in ACTIVE else "0"}, timeout=1200, jvm=("-Xmx6g",), tag="gen" + tag)
     r.parse()
     if r.rc != 0 or r.infra_error:
         raise core.Infra("TLC generation failed (rc=%d):\n%s" % (r.rc, r.out[-4000:]))
@@ -96,11 +102,12 @@ def run(ctx):
     ctx.check_vacuity(r, need)
     r = ctx.model_check("IpcAdmitMC.tla", "IpcAdmitMC2.cfg", workers=4, timeout=900)
     ctx.check_vacuity(r, need)
-    # model-level reproducer of the recorded findings: without the exclusion the mechanism model must violate the property
-    r = ctx.model_check("IpcAdmitMC.tla", "IpcAdmitMC_asfound.cfg", workers=4, timeout=600, count=False,
-                        expect_violation="FileModeWithinChosen")
-    if not r.violated:
-        ctx.notes.append("IpcAdmitMC_asfound.cfg no longer yields a counterexample")
+    # model-level reproducers of the recorded findings: without the exclusion the mechanism model (the code as it is)
+    # must violate the property
+    for cfg, inv in (("IpcAdmitMC_asfound.cfg", "FileModeWithinChosen"),):
+        r = ctx.model_check("IpcAdmitMC.tla", cfg, workers=4, timeout=600, count=False, expect_violation=inv)
+        if not r.violated:
+            ctx.notes.append("%s no longer yields a counterexample" % cfg)
 
     # (2) spec -> code -> spec: TLC enumerates the scenarios, the real library runs them, TLC validates every event
     hs = gen(ctx, 2, sim=False, full=not q, kfskip=kfskip, tag="1")
@@ -146,7 +153,8 @@ def run(ctx):
     # (3) recorded findings: directed reproducers (run without the exclusion)
     if kfskip:
         for kfid in sorted(KF):
-            kf_repro(ctx, exe, kfid)
+            if kfid in ACTIVE:
+                kf_repro(ctx, exe, kfid)
 
     # what was actually explored (projection of the harness's own Env event, no semantics)
     rc, so, se = ctx.run([exe, os.devnull, os.path.join(ctx.work, "env.ndjson")], timeout=30)
